@@ -1185,9 +1185,14 @@ impl SpanPrinter {
         let non_fractional = span.without_lower(split_at);
         let fractional = span.only_lower(split_at);
         self.print_span_designators_non_fraction(&non_fractional, wtr)?;
+        // The sign of the span is written separately (as a prefix or as an
+        // `ago` suffix), so the fractional part is written as an absolute
+        // value, like all of the other units. Taking the absolute value
+        // can't overflow because the limits on the units of a span keep it
+        // far away from `SignedDuration::MIN`.
         wtr.write_fractional_duration(
             unit,
-            &fractional.to_duration_invariant(),
+            &fractional.to_duration_invariant().abs(),
         )?;
         Ok(())
     }
